@@ -5,6 +5,7 @@
 From Coq Require Import List String ZArith Bool.
 Import ListNotations.
 From KV Require Import Base.Bytes Base.Flt Model.Ast Model.Value Model.Eval Proofs.NoPanicProofs.
+From KV Require Model.ErrRender Proofs.ErrRenderProofs Model.ExprParser Proofs.ExprParserProofs Model.EvalVec Proofs.EvalVecProofs.
 Open Scope string_scope.
 
 (* for EVERY expression tree (also ill-typed ones the checker would reject, any nesting depth),
@@ -33,6 +34,20 @@ Theorem function_bodies_never_panic :
   apply_func fo nm args rs <> Panic.
 Proof. exact safe_apply_func. Qed.
 Print Assumptions function_bodies_never_panic.
+
+(* rendering any returned error after binding it to the query text never hits a slice-bounds
+   panic: every query, position, padding (twin of errors.go, C17) *)
+Theorem rendering_never_panics :
+  forall e : ErrRender.qerror, exists s, ErrRender.error_text true e = ErrRender.Ok s.
+Proof. exact ErrRenderProofs.error_text_never_panics. Qed.
+Print Assumptions rendering_never_panics.
+
+(* the expression parser twin is a total function on EVERY token list and returns a tree of
+   its image or an error -- it never dereferences a missing token (twin of parser.go, C15) *)
+Theorem expression_parser_total :
+  forall ts, ExprParser.inv (ExprParser.parse_expr_top ts).
+Proof. exact ExprParserProofs.parse_image_thm. Qed.
+Print Assumptions expression_parser_total.
 
 (* non-vacuity: the guard is what protects the body -- without it the twin does reach Panic *)
 Example unguarded_body_would_panic :
